@@ -1,0 +1,14 @@
+//go:build verif
+
+package keeper
+
+import (
+	"time"
+
+	"github.com/bandprotocol/chain/v3/x/feeds/types"
+)
+
+// CheckHavePrice exposes checkHavePrice to the verification harness (build tag verif only).
+func CheckHavePrice(feed types.Feed, valPrice types.ValidatorPrice, blockTime time.Time) bool {
+	return checkHavePrice(feed, valPrice, blockTime)
+}
